@@ -119,6 +119,11 @@ func init() {
 		c.st.Assume(App(SBool, ">=", dcv(a), IntLit(0)))
 		return dcResult(c, App(SInt, "chop_round", App(SInt, "*", dcv(a), dval(d)))), true
 	}
+	libModels[decCoins+"IsZero"] = func(c *libCall) (Val, bool) {
+		a := c.arg(0)
+		c.st.Assume(App(SBool, ">=", dcv(a), IntLit(0)))
+		return Eq(dcv(a), IntLit(0)), true
+	}
 	libModels[sdkPkg+"NewDecCoinsFromCoins"] = func(c *libCall) (Val, bool) {
 		a := c.arg(0)
 		c.st.Assume(App(SBool, ">=", App(SInt, "coinsv", a), IntLit(0)))
